@@ -137,6 +137,18 @@ theorem wall_dateUnix {z : Zone} (h : WF z) {d : Int} (hs : Settled z d) :
   simp only [] at hs
   rw [hs]; omega
 
+/-- … and only then: `Settled` is exactly "the returned instant reads midnight of the requested day" -/
+theorem wall_dateUnix_iff {z : Zone} (h : WF z) (d : Int) :
+    wall z (dateUnix z d) = d * 86400 ↔ Settled z d := by
+  constructor
+  · intro hw
+    unfold wall at hw
+    rw [dateUnix_eq h] at hw
+    unfold Settled
+    simp only []
+    omega
+  · exact wall_dateUnix h
+
 theorem wall_dateUnix_fixed (o d : Int) : wall (fixed o) (dateUnix (fixed o) d) = d * 86400 := by
   rw [dateUnix_fixed]; unfold wall; rw [offsetAt_fixed]; omega
 
